@@ -579,14 +579,20 @@ class PlanJoinTablesQuery:
         if item.conditions:
             row_dict = {}
             for i, el in enumerate(item.conditions):
-                if isinstance(el.args[0], Identifier) and el.op == '=':
-                    col_name = el.args[0].parts[-1]
+                if el.op != '=' or len(el.args) != 2:
+                    continue
+                # the column may be written on either side: m.a = 1 or 1 = m.a
+                column, value = el.args
+                if not isinstance(column, Identifier):
+                    column, value = value, column
+                if isinstance(column, Identifier):
+                    col_name = column.parts[-1]
                     if col_name.lower() == predict_target:
                         # don't add predict target to parameters
                         continue
 
-                    if isinstance(el.args[1], (Constant, Parameter)):
-                        row_dict[el.args[0].parts[-1]] = el.args[1].value
+                    if isinstance(value, (Constant, Parameter)):
+                        row_dict[column.parts[-1]] = value.value
 
                     # exclude condition
                     el._orig_node.args = [Constant(0), Constant(0)]
